@@ -62,6 +62,13 @@ Definition registered : list (N * string * bool * string) := [
   (31, "FlySrc", false, "struct{string,string,string}")
 ].
 
+(* (alias, type number) from the RegisterCaveatJSONAlias calls in the source *)
+Definition json_aliases : list (string * N) := [
+  ("DeprecatedApps", 3);
+  ("DeprecatedOrganization", 0);
+  ("NoAdminFeatures", 22)
+].
+
 Definition f_cav_min_user_defined : N := 281474976710656.
 Definition f_cav_max_user_defined : N := 18446744073709551614.
 Definition f_cav_unregistered : N := 18446744073709551615.
